@@ -27,6 +27,26 @@ fn fin(t: usvg::Transform) -> bool {
     [t.sx, t.ky, t.kx, t.sy, t.tx, t.ty].iter().all(|x| x.is_finite() && x.abs() < 1e15)
 }
 
+/// the recorded defects of instance groups (see known_findings.json, C12): which one, if any, explains
+/// `cg.abs_transform() != parent_abs · cg.transform()`
+fn known_abs_defect(parent_abs: usvg::Transform, cg: &Group) -> Option<&'static str> {
+    let want = parent_abs.pre_concat(cg.transform());
+    if want == cg.abs_transform() || !fin(want) {
+        return None;
+    }
+    let twice = want.pre_concat(cg.transform());
+    let close = |a: usvg::Transform, b: usvg::Transform| [a.sx - b.sx, a.kx - b.kx, a.ky - b.ky, a.sy - b.sy, a.tx - b.tx, a.ty - b.ty].iter().all(|d| d.abs() <= 1e-3 * (1.0 + b.tx.abs().max(b.ty.abs())));
+    if !cg.transform().is_identity() && close(cg.abs_transform(), twice) {
+        Some("oracle:C12:abs-transform-applies-own-transform-twice")
+    } else if cg.clip_path().is_some() && cg.abs_transform() == parent_abs {
+        Some("oracle:C12:abs-transform-of-viewport-clip-group")
+    } else if cg.transform().is_identity() {
+        Some("oracle:C12:abs-transform-of-instance-inner-group")
+    } else {
+        None
+    }
+}
+
 fn corr_group(g: &Group, chain: &mut Vec<usvg::Transform>, root_ts: usvg::Transform, main: bool, c: &mut Corr, budget: &mut usize) {
     if *budget == 0 {
         return;
@@ -57,7 +77,10 @@ fn corr_group(g: &Group, chain: &mut Vec<usvg::Transform>, root_ts: usvg::Transf
     for n in kids {
         match n {
             Node::Group(cg) => {
-                if main && fin(cg.transform()) {
+                // groups of `use` / `symbol` / nested-`svg` instances carry the recorded abs_transform defects
+                // (known findings of C12, reported by the search): the chain below them is not compared
+                let defect = known_abs_defect(g.abs_transform(), cg).is_some();
+                if main && fin(cg.transform()) && !defect {
                     chain.push(cg.transform());
                     c.emit(&format!("abst {} {}", ts_csv(root_ts), chain.iter().map(|t| ts_csv(*t)).collect::<Vec<_>>().join(" ")), &ts_sp(cg.abs_transform()));
                     corr_group(cg, chain, root_ts, main, c, budget);
@@ -130,20 +153,9 @@ fn relations(g: &Group, parent_abs: usvg::Transform, at: &str, key: &str, s: &mu
             Node::Group(cg) => {
                 // absolute transform = parent's absolute transform · own transform
                 let want = parent_abs.pre_concat(cg.transform());
-                // recorded defect: a `use` / nested `svg` with a transform attribute gets it applied twice
-                let twice = want.pre_concat(cg.transform());
-                let close = |a: usvg::Transform, b: usvg::Transform| [a.sx - b.sx, a.kx - b.kx, a.ky - b.ky, a.sy - b.sy, a.tx - b.tx, a.ty - b.ty].iter().all(|d| d.abs() <= 1e-3 * (1.0 + b.tx.abs().max(b.ty.abs())));
-                if want != cg.abs_transform() && fin(want) && !cg.transform().is_identity() && close(cg.abs_transform(), twice) {
-                    s.finding("oracle:C12:abs-transform-applies-own-transform-twice", &format!("{}: group {:?} transform {:?}: abs_transform {:?}, product of the ancestors {:?}", here, cg.id(), cg.transform(), cg.abs_transform(), want), key);
-                } else if want != cg.abs_transform() && fin(want) && cg.clip_path().is_some() && cg.abs_transform() == parent_abs {
-                    // recorded defect: the clip group made for a symbol / nested svg viewport carries the use
-                    // transform but keeps its parent's absolute transform (its child compensates)
-                    s.finding("oracle:C12:abs-transform-of-viewport-clip-group", &format!("{}: abs_transform {:?}, product of the ancestors {:?}", here, cg.abs_transform(), want), key);
-                } else if want != cg.abs_transform() && fin(want) && cg.transform().is_identity() {
-                    // recorded defect, same family: the inner group of a use / symbol / nested-svg instance has an
-                    // identity transform but an abs_transform that differs from its parent's (compensation for the
-                    // clip group above, or a symbol's own transform attribute that rendering ignores)
-                    s.finding("oracle:C12:abs-transform-of-instance-inner-group", &format!("{}: identity transform, abs_transform {:?}, parent's {:?}", here, cg.abs_transform(), parent_abs), key);
+                // recorded defects of instance groups (use / symbol / nested svg): see `known_abs_defect`
+                if let Some(sig) = known_abs_defect(parent_abs, cg) {
+                    s.finding(sig, &format!("{}: group {:?} transform {:?}: abs_transform {:?}, product of the ancestors {:?}, parent's {:?}", here, cg.id(), cg.transform(), cg.abs_transform(), want, parent_abs), key);
                 } else if want != cg.abs_transform() && fin(want) {
                     s.finding("oracle:C12:abs-transform-not-product", &format!("{}: abs_transform {:?}, product of the ancestors {:?}", here, cg.abs_transform(), want), key);
                 }
